@@ -233,6 +233,9 @@ Definition get_values_by_name (name : str) (data : gv) : outcome gv :=
     | [] => Err EKeyNotFound
     | x0 :: _ =>
       let fev := deref1 (slot t x0) in
+      match rv_v fev with
+      | VDec _ => Err EKeyNotFound      (* a decimal.Decimal is a struct to reflect but a number to mpath *)
+      | _ =>
       match rkind fev with
       | KdStruct | KdMap =>
         match filter_map (fun x => get_field_by_name name (slot t x)) xs with
@@ -240,6 +243,7 @@ Definition get_values_by_name (name : str) (data : gv) : outcome gv :=
         | slc => Ok (VSlice EAny false slc)
         end
       | _ => Err EKeyNotFound
+      end
       end
     end
   | _ => Err EKeyNotFound
